@@ -25,8 +25,9 @@ import (
 )
 
 const (
-	batchSize  = 104 // programs per case = per helper process
-	goroutines = 8
+	batchSize    = 104 // programs per case = per helper process
+	goroutines   = 8
+	sharedTrials = 64 // fresh Programs per shared-program case
 )
 
 func init() {
@@ -55,7 +56,7 @@ func init() {
 func finish(ev map[string]any) (string, bool) {
 	cnt, _ := ev["counters"].(map[string]int64)
 	for _, k := range []string{"programs", "process_pairs", "records_compared", "programs_long_string_keys", "programs_map_backed_listing", "programs_error_hint",
-		"exec_process_a", "exec_process_b", "exec_after_unrelated", "exec_reused_thread", "exec_long_lived_thread", "exec_concurrent_same", "exec_concurrent_mixed"} {
+		"exec_process_a", "exec_process_b", "exec_after_unrelated", "exec_reused_thread", "exec_long_lived_thread", "exec_concurrent_same", "exec_concurrent_mixed", "exec_shared_source", "exec_shared_compiled"} {
 		if cnt[k] <= 0 {
 			return "monitor observed nothing for " + k, true
 		}
@@ -64,12 +65,13 @@ func finish(ev map[string]any) (string, bool) {
 }
 
 type item struct {
-	c       Case
-	tags    []string
-	ref     Record
-	refText string
-	diffs   []diff
-	nontriv bool
+	c        Case
+	tags     []string
+	ref      Record
+	refText  string
+	diffs    []diff
+	compared int
+	nontriv  bool
 }
 
 type diff struct {
@@ -106,6 +108,14 @@ func run(c *driver.Ctx) {
 			continue
 		}
 		runBatch(c, c.Rand())
+	}
+	// shared-program arm: one case = one program, sharedTrials fresh Programs, each Init-ed by N goroutines
+	nshared := c.Pick(16, 240)
+	for i := 0; i < nshared; i++ {
+		if !c.Take() {
+			continue
+		}
+		runShared(c, c.Rand(), sharedTrials)
 	}
 }
 
@@ -268,6 +278,13 @@ func runBatch(c *driver.Ctx, r *rand.Rand) {
 	c.Count("records_compared", compared)
 
 	for _, it := range items {
+		it.compared = 3 + 2*goroutines + 1
+		if errA == nil {
+			it.compared++
+		}
+		if errB == nil {
+			it.compared++
+		}
 		account(c, it)
 		if len(it.diffs) > 0 {
 			report(c, it)
@@ -347,7 +364,7 @@ func account(c *driver.Ctx, it *item) {
 	}
 	if c.WantSample() && it.nontriv {
 		c.Sample(map[string]any{"family": it.c.Family, "options": sl.OptionsString(sl.OptionsFromBits(it.c.Bits)), "source": driver.Truncate(it.c.Src, 700),
-			"record_hash": hashText(it.refText), "steps": ref.Steps, "outcome": driver.Truncate(firstLine(ref.Err), 200), "records_equal_to_reference": 2 + 3 + 2*goroutines - len(it.diffs)})
+			"record_hash": hashText(it.refText), "steps": ref.Steps, "outcome": driver.Truncate(firstLine(ref.Err), 200), "records_compared_with_reference": it.compared, "records_equal_to_reference": it.compared - len(it.diffs)})
 	}
 }
 
@@ -356,6 +373,9 @@ func report(c *driver.Ctx, it *item) {
 	// prefer a cross-process difference for the witness only if there is no in-process one: the key is
 	// made from the first differing component, which is the same for one root cause in most arms
 	class := diffClass(&it.ref, &d.rec)
+	if it.c.Family == "shared-program" && strings.HasPrefix(class, "events-") && firstDiffLineHasPrefix(it.ref.Events, d.rec.Events, "stack ") {
+		class = "error-backtrace" // the call stack seen by a host built-in: same observable as the backtrace
+	}
 	arms := map[string]int{}
 	for _, x := range it.diffs {
 		arms[x.arm]++
@@ -375,6 +395,17 @@ func report(c *driver.Ctx, it *item) {
 		"reference_arm": "own-process-first", "reference_record": driver.Truncate(it.refText, 30000),
 		"other_arm": d.arm, "other_record": driver.Truncate(d.rec.Text(), 30000),
 	})
+}
+
+// firstDiffLineHasPrefix reports whether the first line in which a and b differ starts with prefix (in either).
+func firstDiffLineHasPrefix(a, b, prefix string) bool {
+	la, lb := strings.Split(a, "\n"), strings.Split(b, "\n")
+	for i := 0; i < len(la) && i < len(lb); i++ {
+		if la[i] != lb[i] {
+			return strings.HasPrefix(la[i], prefix) || strings.HasPrefix(lb[i], prefix)
+		}
+	}
+	return false
 }
 
 func firstDifference(a, b *Record) (comp string, off int, ca, cb string) {
